@@ -1072,7 +1072,7 @@ fn do_extract(args: &BTreeMap<String, String>) -> Result<(), String> {
     let mut skel_cfg = skel::Cfg::default();
     let mut inlined_helpers: Vec<String> = Vec::new();
     let mut all_fn_names: Vec<String> = Vec::new();
-    let mut pure_checks: Vec<(String, String, usize, Option<String>)> = Vec::new();
+    let mut pure_checks: Vec<(String, String, usize, Option<String>, Option<String>)> = Vec::new();
     // parameter names the contract texts were written against (committed baseline): a renamed parameter is renamed in the
     // contract/hint texts of that function as well (R22)
     let params_baseline: serde_json::Value = args.get("params-baseline").and_then(|p| std::fs::read_to_string(p).ok()).and_then(|t| serde_json::from_str(&t).ok()).unwrap_or(json!({}));
@@ -1169,6 +1169,8 @@ fn do_extract(args: &BTreeMap<String, String>) -> Result<(), String> {
             let mut stack: Vec<String> = vec![pname.clone()];
             let mut seen: Vec<String> = vec![];
             let mut hit: Option<String> = None;
+            let mut lock_hit: Option<String> = None;
+            let mut unknown_lock: Option<String> = None;
             let mut first_loc: Option<(String, usize)> = None;
             while let Some(n) = stack.pop() {
                 if seen.contains(&n) || seen.len() > 40 { continue; }
@@ -1194,6 +1196,53 @@ fn do_extract(args: &BTreeMap<String, String>) -> Result<(), String> {
                             }
                         }
                         let text = clean;
+                        // lock acquisitions inside a function the rules treat as lock-free. Two outcomes:
+                        //  * a guard of a higher lock level bound to a variable (`let g = ….wal.lock();`) that is still alive (same or
+                        //    enclosing block, no `drop(g)`) when a lower level is acquired (`….state.read()`, `pending_intents.lock()`):
+                        //    a definite inversion of the documented order INTENTS < STATE < WAL -> failing obligation;
+                        //  * any other lock acquisition: the rules misdescribe this function -> extraction problem (UNDECIDED).
+                        {
+                            let squeezed: String = text.chars().filter(|c| !c.is_whitespace()).collect();
+                            let level = |st: &str| -> Option<u8> {
+                                if st.contains("pending_intents.lock()") { Some(0) }
+                                else if st.contains("state.read()") || st.contains("state.write()") || st.contains("read_state()") || st.contains("state.upgradable_read()") { Some(1) }
+                                else if st.contains("wal.lock()") { Some(2) } else { None }
+                            };
+                            let stmts: Vec<&str> = squeezed.split(';').collect();
+                            let mut depth: i32 = 0;
+                            let mut held: Vec<(u8, String, i32)> = vec![];   // (level, guard variable, block depth)
+                            let mut any_lock = false;
+                            for st in stmts.iter() {
+                                // braces before the statement text proper (a `}` closes blocks and releases their guards)
+                                let lv = level(st);
+                                if let Some(l) = lv {
+                                    any_lock = true;
+                                    if let Some((hl, hv, _)) = held.iter().find(|(hl, _, _)| *hl > l) {
+                                        if lock_hit.is_none() { lock_hit = Some(format!("an acquisition of lock level {} while the guard `{}` of level {} is held, in {} ({}:{})", l, hv, hl, n, sr.rel, line)); }
+                                    }
+                                    let body = st.trim_start_matches(|c| c == '{' || c == '}');
+                                    if let Some(rest) = body.strip_prefix("let") {
+                                        let rest = rest.strip_prefix("mut").unwrap_or(rest);
+                                        if let Some(eq) = rest.find('=') {
+                                            let var = &rest[..eq];
+                                            let acquired_last = st.ends_with("lock()") || st.ends_with("read()") || st.ends_with("write()") || st.ends_with("read_state()");
+                                            if acquired_last && var.chars().all(|c| c.is_alphanumeric() || c == '_') && !var.is_empty() && var != "_" {
+                                                held.push((l, var.to_string(), depth + st.matches('{').count() as i32 - st.matches('}').count() as i32));
+                                            }
+                                        }
+                                    }
+                                }
+                                for (_, hv, _) in held.clone().iter() { if st.contains(&format!("drop({})", hv)) { held.retain(|(_, v, _)| v != hv); } }
+                                depth += st.matches('{').count() as i32 - st.matches('}').count() as i32;
+                                held.retain(|(_, _, d)| *d <= depth);
+                            }
+                            if lock_hit.is_none() {
+                                for pat in [".lock()", ".read()", ".write()", ".read_state()", ".upgradable_read()", ".try_lock_for(", ".try_write_for(", ".try_read_for(", ".lock_arc()", ".read_recursive()"] {
+                                    if squeezed.contains(pat) { any_lock = true; }
+                                }
+                                if any_lock && unknown_lock.is_none() { unknown_lock = Some(format!("`{}` ({}:{}) is on the `pure` list of the skeleton rules but acquires a lock", n, sr.rel, line)); }
+                            }
+                        }
                         let toks: Vec<&str> = text.split(|c: char| !(c.is_alphanumeric() || c == '_')).filter(|t| !t.is_empty()).collect();
                         for t in toks.iter() {
                             if MUTATORS.contains(t) && hit.is_none() { hit = Some(format!("`{}` in {} ({}:{})", t, n, sr.rel, line)); }
@@ -1203,7 +1252,8 @@ fn do_extract(args: &BTreeMap<String, String>) -> Result<(), String> {
                 }
             }
             if let Some((f, l)) = first_loc {
-                pure_checks.push((pname.clone(), f, l, hit));
+                if lock_hit.is_none() { if let Some(u) = unknown_lock { return Err(format!("EXTRACTION-PROBLEM: {}: its lock behaviour is not modelled", u)); } }
+                pure_checks.push((pname.clone(), f, l, hit, lock_hit));
             }
         }
         skel::NEW_FNS.with(|v| { *v.borrow_mut() = newfns.into_iter().map(|f| { let r: &'static skel::NewFn = Box::leak(Box::new(f)); r }).collect(); });
@@ -1685,11 +1735,15 @@ fn do_extract(args: &BTreeMap<String, String>) -> Result<(), String> {
         auto_lines.push(OutLine { text: "}".into(), src: None, func: Some(fdisp.clone()), label: None });
         auto_funcs.push(json!({"name": fdisp, "source": file, "src_line": found_line, "kind": "skel", "has_contract": true, "external_body": false}));
     }
-    for (pname, file, line, hit) in pure_checks.iter() {
+    for (pname, file, line, hit, lock_hit) in pure_checks.iter() {
         let fdisp = format!("pure {}", pname);
         auto_lines.push(OutLine { text: format!("// `{}` is treated as effect-free by the skeleton rules ({}:{}){}", pname, file, line, match hit { Some(h) => format!(" — but its body (or a callee) uses {}", h), None => String::new() }), src: Some((file.clone(), *line)), func: Some(fdisp.clone()), label: None });
         auto_lines.push(OutLine { text: format!("pub fn purecheck_{}() {{", pname), src: Some((file.clone(), *line)), func: Some(fdisp.clone()), label: None });
         auto_lines.push(OutLine { text: format!("    assert(/*@declared_pure_function_has_no_effect*/ {});", hit.is_none()), src: Some((file.clone(), *line)), func: Some(fdisp.clone()), label: Some(format!("{}::declared_pure_function_has_no_effect", fdisp)) });
+        auto_lines.push(OutLine { text: "}".into(), src: None, func: Some(fdisp.clone()), label: None });
+        auto_lines.push(OutLine { text: format!("// `{}` is treated as lock-free by the skeleton rules{}", pname, match lock_hit { Some(h) => format!(" — but its body (or a callee) performs {}", h), None => String::new() }), src: Some((file.clone(), *line)), func: Some(fdisp.clone()), label: None });
+        auto_lines.push(OutLine { text: format!("pub fn purecheck_lock_{}() {{", pname), src: Some((file.clone(), *line)), func: Some(fdisp.clone()), label: None });
+        auto_lines.push(OutLine { text: format!("    assert(/*@declared_pure_function_takes_no_lock*/ {});", lock_hit.is_none()), src: Some((file.clone(), *line)), func: Some(fdisp.clone()), label: Some(format!("{}::declared_pure_function_takes_no_lock", fdisp)) });
         auto_lines.push(OutLine { text: "}".into(), src: None, func: Some(fdisp.clone()), label: None });
         auto_funcs.push(json!({"name": fdisp, "source": file, "src_line": line, "kind": "skel", "has_contract": true, "external_body": false}));
     }
